@@ -166,15 +166,23 @@ func c01Raw(c *caseCtx) (res caseResult) {
 			res.inconclusive("final marker not invoked within the watchdog although invocations were still coming (%s)", res.Desc)
 			return
 		}
-		// nothing has been invoked for 10 s and the marker is still missing. Decide on state: if one further
-		// send makes the stranded messages appear, they were resting in an idle inbox
-		in.Send(actor.Envelope{Msg: &tmsg{Sender: -3}})
-		if fin2, _ := settle(wd/3, 10*time.Second, isDone(fin.done), invoked); fin2 {
-			res.violate("the final marker (and what was queued before it) was handed over only after a further send kicked the inbox, which had been quiet for 10 s: messages sent to a live inbox were not delivered (%s)", res.Desc)
-		} else {
-			res.inconclusive("final marker not invoked, also after a kick (%s)", res.Desc)
+		// nothing has been invoked for 10 s and the marker is still missing. Decide on state: is the process at
+		// rest (no worker goroutine left)? Then, if one further send makes the stranded messages appear, they were
+		// resting in an idle inbox
+		late, rest, where := stallVerdict(wd, isDone(fin.done))
+		if !late {
+			if !rest {
+				res.inconclusive("final marker not invoked within the watchdog, the process is not at rest: %s (%s)", where, res.Desc)
+				return
+			}
+			in.Send(actor.Envelope{Msg: &tmsg{Sender: -3}})
+			if fin2, _ := settle(wd/3, 10*time.Second, isDone(fin.done), invoked); fin2 {
+				res.violate("the final marker (and what was queued before it) was handed over only after a further send kicked the inbox, which had been at rest (%s): messages sent to a live inbox were not delivered (%s)", where, res.Desc)
+			} else {
+				res.violate("the final marker was never handed over: the process is at rest (%s) and a further send changed nothing (%s)", where, res.Desc)
+			}
+			return
 		}
-		return
 	}
 	p.mu.Lock()
 	got := append([]actor.Envelope(nil), p.got...)
@@ -450,13 +458,20 @@ func c01Engine(c *caseCtx) (res caseResult) {
 			res.inconclusive("final marker not received within the watchdog although deliveries were still coming (%s)", res.Desc)
 			return
 		}
-		e.Send(pid, &tmsg{Sender: -3})
-		if fin2, _ := settle(wd/3, 10*time.Second, isDone, rc.progress); fin2 {
-			res.violate("the final marker (and what was queued before it) was received only after a further send kicked the actor, which had been quiet for 10 s: messages sent to a live actor were not delivered (%s)", res.Desc)
-		} else {
-			res.inconclusive("final marker not received, also after a kick (%s)", res.Desc)
+		late, rest, where := stallVerdict(wd, isDone)
+		if !late {
+			if !rest {
+				res.inconclusive("final marker not received within the watchdog, the process is not at rest: %s (%s)", where, res.Desc)
+				return
+			}
+			e.Send(pid, &tmsg{Sender: -3})
+			if fin2, _ := settle(wd/3, 10*time.Second, isDone, rc.progress); fin2 {
+				res.violate("the final marker (and what was queued before it) was received only after a further send kicked the actor, which had been at rest (%s): messages sent to a live actor were not delivered (%s)", where, res.Desc)
+			} else {
+				res.violate("the final marker was never received: the process is at rest (%s) and a further send changed nothing (%s)", where, res.Desc)
+			}
+			return
 		}
-		return
 	}
 	got := rc.got
 	// the forwarded messages are fresh objects created inside the actor: match them by id only
@@ -587,17 +602,29 @@ func c01Sustained(c *caseCtx) (res caseResult) {
 	total := n + freeSent[1] + freeSent[2]
 	count := func() int { rc.mu.Lock(); defer rc.mu.Unlock(); return len(rc.got) }
 	if fin, _ := settle(wd, 10*time.Second, func() bool { return count() >= total }, func() int64 { return int64(count()) }); !fin {
-		// decide on state: a sentinel behind everything
-		fin := &tmsg{Sender: 0, Seq: n}
-		e.SendWithSender(pid, fin, spid[0])
-		select {
-		case <-rc.entered:
-			rc.release <- struct{}{}
-			res.violate("%d of %d messages delivered although a message sent after all of them has been delivered (%s)", count()-1, total, res.Desc)
-		case <-time.After(wd):
-			res.inconclusive("only %d of %d messages delivered within the watchdog (%s)", count(), total, res.Desc)
+		// decide on state: at rest? then a sentinel behind everything
+		before := count()
+		late, rest, where := stallVerdict(wd, func() bool { return count() >= total })
+		if !late {
+			if !rest {
+				res.inconclusive("only %d of %d messages delivered within the watchdog, the process is not at rest: %s (%s)", count(), total, where, res.Desc)
+				return
+			}
+			fin := &tmsg{Sender: 0, Seq: n}
+			e.SendWithSender(pid, fin, spid[0])
+			select {
+			case <-rc.entered:
+				rc.release <- struct{}{}
+				if count()-1 >= total {
+					res.violate("%d of %d messages had been delivered when the process came to rest (%s); the others arrived only after a further message kicked the actor (%s)", before, total, where, res.Desc)
+				} else {
+					res.violate("%d of %d messages delivered although a message sent after all of them has been delivered (%s)", count()-1, total, res.Desc)
+				}
+			case <-time.After(wd):
+				res.violate("%d of %d messages delivered, the process is at rest (%s) and a further message changed nothing (%s)", count(), total, where, res.Desc)
+			}
+			return
 		}
-		return
 	}
 	rc.mu.Lock()
 	next := make([]int, 3)
